@@ -37,6 +37,7 @@ class LtlPastifier(LtlAstVisitor):
     def __init__(self):
         self.subformula_horizons = dict()
         self.ast = None
+        self.sample = None  # length of one sample in the default unit (set by the discrete-time specification)
 
     def pastify(self, ast):
         self.ast = ast
